@@ -238,13 +238,24 @@ func runC18RdnsCache(c *fw.Ctx, id string) {
 	gen := map[string]int{}   // resolver generation per address (names change every query so stale data is visible)
 	fail := map[string]bool{} // whether the next query fails
 	queries := map[string]int{}
-	rs := installResolver(func(addr string) ([]string, error, time.Duration) {
+	lastAnswer := map[string]string{}
+	rs := installResolver(func(addr string) (answer []string, _ error, _ time.Duration) {
 		queries[addr]++
 		if fail[addr] {
 			return nil, resolverFailure(queries[addr]+len(addr), addr), 0
 		}
 		gen[addr]++
-		return []string{fmt.Sprintf("gen%d.%s.example.", gen[addr], addr)}, nil, 0
+		n := fmt.Sprintf("gen%d.%s.example.", gen[addr], addr)
+		defer func() { lastAnswer[addr] = fmt.Sprint(answer) }()
+		switch gen[addr] % 4 {
+		case 1:
+			// several PTR records, the same name twice in a row among them (duplicated records, round-robin answers): the
+			// names of an address are EXACTLY what the resolver returned, first time and from the cache
+			return []string{n, n, "alias-" + n, "alias-" + n, n}, nil, 0
+		case 2:
+			return []string{n, "second-" + n}, nil, 0
+		}
+		return []string{n}, nil, 0
 	})
 	defer rs.restore()
 	type entry struct {
@@ -301,7 +312,10 @@ func runC18RdnsCache(c *fw.Ctx, id string) {
 				if err != nil {
 					c.Violate("C18", "success-lost", fmt.Sprintf("%s: resolver answered for %s but got error %v", id, a, err), trace)
 				}
-				ref[a] = entry{names: fmt.Sprint(names), expiry: now.Add(time.Hour)}
+				if fmt.Sprint(names) != lastAnswer[a] {
+					c.Violate("C18", "names-differ-from-answer", fmt.Sprintf("%s: the resolver answered %s for %s, the lookup returned %v", id, lastAnswer[a], a, names), trace)
+				}
+				ref[a] = entry{names: lastAnswer[a], expiry: now.Add(time.Hour)}
 				c.Nontrivial("rdns-cache/stored-miss")
 			}
 			c.Count("cache_misses", 1)
